@@ -35,3 +35,16 @@ func VerifC25PTYArgv(p PTYSessionInterface) []string {
 	}
 	return nil
 }
+
+// VerifC25SessionEnvDir returns exec.Cmd.Env (nil = inherit the agent's environment) and exec.Cmd.Dir.
+func VerifC25SessionEnvDir(s *Session) ([]string, string) {
+	return append([]string(nil), s.cmd.Env...), s.cmd.Dir
+}
+
+// VerifC25PTYEnvDir is VerifC25SessionEnvDir for a PTY session.
+func VerifC25PTYEnvDir(p PTYSessionInterface) ([]string, string, bool) {
+	if s, ok := p.(*PTYSession); ok && s.cmd != nil {
+		return append([]string(nil), s.cmd.Env...), s.cmd.Dir, true
+	}
+	return nil, "", false
+}
